@@ -28,8 +28,8 @@ struct C22 : vf::Engine {
         p.setcfgr("maxstep", r.pick(std::vector<double>{0.01, 0.02, 0.04}));
         double T = r.uni(0.8, 3.0);
         p.setcfgr("final", T);
-        p.setcfg("every", r.chance(0.2) ? 1 : 0);
-        p.setcfg("interp", r.chance(0.85) ? 1 : 0);
+        p.setcfg("every", r.chance(0.2) ? 1 : (r.chance(0.3) ? 2 : 0));
+        p.setcfg("interp", r.chance(0.85) ? (r.chance(0.3) ? 2 : 1) : 0);
         p.setcfg("reportall", r.chance(0.5) ? 1 : 0);
         int nw = r.range(1, 3);
         for (int i = 0; i < nw; ++i) {
@@ -132,8 +132,8 @@ struct C22 : vf::Engine {
         integ->setAccuracy(std::min(0.1, std::max(1e-9, p.cfgr("accuracy", 1e-3))));
         if (fixed > 0 && ik != 6 && ik != 8) integ->setFixedStepSize(fixed); else if (ik != 6) integ->setMaximumStepSize(maxstep);
         integ->setFinalTime(T);
-        if (p.cfgn("every", 0)) integ->setReturnEveryInternalStep(true);
-        if (!p.cfgn("interp", 1)) integ->setAllowInterpolation(false);
+        { long ev = p.cfgn("every", 0); if (ev == 1) integ->setReturnEveryInternalStep(true); else if (ev == 2) integ->setReturnEveryInternalStep(false); }   // 0: setter never called (default), 2: explicitly off
+        { long iv = p.cfgn("interp", 1); if (iv == 0) integ->setAllowInterpolation(false); else if (iv == 2) integ->setAllowInterpolation(true); }   // 1: setter never called (default), 2: explicitly on
         const double hmax = (fixed > 0 && ik != 8) ? std::max(fixed, ik == 6 ? fixed : 0.0) : maxstep;
         res.count(std::string("integ_") + IntegNames[ik]); res.count(direct ? "drive_direct" : "drive_stepper");
 
